@@ -54,6 +54,7 @@ type mergeAbort struct{ why string }
 
 // State of one interpreter instance (one per worker).
 type interpreter struct {
+	lastFn *ssa.Function // most recently entered function (diagnostics only)
 	prog               *ssa.Program
 	shared             *Program
 	globals            map[*ssa.Global]*value
@@ -598,6 +599,7 @@ func callSSA(i *interpreter, caller *frame, callpos token.Pos, fn *ssa.Function,
 		defer fmt.Fprintf(os.Stderr, "Leaving %s.\n", fn)
 	}
 	fr := &frame{i: i, caller: caller, fn: fn}
+	i.lastFn = fn
 	pkg := fnPkg(fn)
 	if fn.Parent() == nil {
 		if fn.Synthetic == "package initializer" {
